@@ -369,10 +369,13 @@ async def precedence_case(case: Dict[str, Any]) -> List[Tuple[str, str]]:
         # metadata is a multi-map: a key may occur more than once, as a list of pairs
         stub_pairs += [("x-multi", "a"), ("x-multi", "b"), ("x-bin-bin", b"\x00\x01")]
         call_pairs += [("x-multi", "c"), ("x-multi", "d")]
+    if form in ("empty-call-mapping", "empty-call-pairs"):
+        # a call-level value that is given but falsy ({} / []) still replaces the stub-level default
+        call_pairs = []
     if s_md:
         stub_kw["metadata"] = dict(stub_pairs) if form == "mapping-stub" else list(stub_pairs)
     if c_md:
-        call_kw["metadata"] = list(call_pairs) if form == "mapping-stub" else (dict(call_pairs) if form == "mapping-call" else list(call_pairs))
+        call_kw["metadata"] = {} if form == "empty-call-mapping" else list(call_pairs) if form == "mapping-stub" else (dict(call_pairs) if form == "mapping-call" else list(call_pairs))
     cf = ChannelFor([svc])
     async with cf as channel:
         async def on_recv(event):
@@ -718,6 +721,9 @@ def cases(tier: str) -> List[Dict[str, Any]]:
             out.append({"kind": "precedence", "method": m, "cfg": list(cfg)})
             if cfg[4] or cfg[5]:
                 for form in ("mapping-call", "pairs-repeated-key"):
+                    out.append({"kind": "precedence", "method": m, "cfg": list(cfg), "form": form})
+            if cfg[5]:
+                for form in ("empty-call-mapping", "empty-call-pairs"):
                     out.append({"kind": "precedence", "method": m, "cfg": list(cfg), "form": form})
     return out
 
